@@ -6,7 +6,7 @@
    components (with the stated ST corner), and mutually consistent.  What ties them to the code:
    C02 / C03 (status computed = cred / skep) and, on every run, the metamorphic comparison of the
    real solvers on transformed instances (checks/C11.py).
-   Second block (C11_solver_*): the transfer to the solver MODEL: the statuses computed by
+   Second block (theorems named C11_solver_...): the transfer to the solver MODEL: the statuses computed by
    Model.Solvers.run_query on a presentation and on a transformed presentation are equal. *)
 From Crusta Require Import Spec.AF Spec.SemFacts Spec.Theory Spec.Invariance.
 From Crusta Require Import Sat.Cnf Sat.Prog Model.Encoders Model.Graph Model.Solvers.
